@@ -2,8 +2,51 @@
 import numpy as np
 
 
+def replay_time_match(info, ce):
+    """master delayed by each signal's lag; after time_match the compared windows must coincide with the master's"""
+    import eqsig
+    rng = np.random.RandomState(7)
+    lags, master, steps = info['lags'], info['master'], info.get('steps', 2)
+    for n in (6, 9, 40):
+        for trial in range(4):
+            x = rng.randn(n)
+            arrs = []
+            for lag in lags:
+                sl = rng.randn(n)
+                for i in range(n):
+                    if 0 <= i - lag < n:
+                        sl[i] = x[i - lag]
+                arrs.append(sl)
+            arrs.insert(master, x.copy())
+            c = eqsig.Cluster([a.copy() for a in arrs], 0.5, master_index=master)
+            try:
+                c.time_match(steps=steps)
+            except Exception as e:
+                return dict(status='confirmed', observed={'raises': type(e).__name__, 'message': str(e)[:200]}, detail='time_match raised on a valid cluster',
+                            input={'signals': [a.tolist() for a in arrs], 'master_index': master, 'steps': steps})
+            w = n - steps
+            bad = []
+            for j in range(len(arrs)):
+                v = np.asarray(c.values_by_index(j))
+                if v.shape != (n,):
+                    bad.append('signal %d has shape %s' % (j, v.shape))
+                elif j == master:
+                    if not np.array_equal(v, x):
+                        bad.append('master changed')
+                else:
+                    ok = np.allclose(v[:w], x[:w], atol=1e-12) or any(np.allclose(v[s:s + w], x[s:s + w], atol=1e-12) for s in range(1, steps))
+                    if not ok:
+                        bad.append('signal %d (lag %d) does not coincide with the master on the compared window' % (j, ([None] * 0 + [l for l in lags])[j - (1 if j > master else 0)]))
+            if bad:
+                return dict(status='confirmed', observed={'problems': bad}, detail='Cluster.time_match(steps=%d), lags=%s, master_index=%d: %s' % (steps, lags, master, bad),
+                            input={'signals': [a.tolist() for a in arrs], 'master_index': master, 'steps': steps})
+    return dict(status='not-reproduced', detail='time_match aligned every signal on the battery (lags=%s, master=%d)' % (lags, master))
+
+
 def replay(info, ce):
     import eqsig
+    if info.get('op') == 'time_match':
+        return replay_time_match(info, ce)
     rng = np.random.RandomState(3)
     k, master, n = info['k'], info['master'], info.get('n', 40)
     arrs = [rng.randn(n) + 3 * j for j in range(k)]
